@@ -82,7 +82,8 @@ theorem finish_sem2 {Q : FState → Nat → Prop} {es : List Nat} {dest : Option
     (hp : Pre2 scope ρ σ0 s) (hd : d < s.qc.numQubits)
     (htgt : wo = false → ∀ m ∈ es, m ∈ s.qc.anc → Tgt s m) :
     a = d ∧ Pre2 scope ρ σ0 s' ∧ Sem2 scope σ0 wo Q NoQ (· = e) (fun m => m ∈ es ∧ m ∈ s.qc.anc) s s' ∧
-      cur σ0 s' = cur σ0 s ∧ (∀ m ∈ es, m ∈ s.qc.anc → m ∈ s'.qc.marked) ∧ s'.qc.anc = s.qc.anc := by
+      cur σ0 s' = cur σ0 s ∧ (∀ m ∈ es, m ∈ s.qc.anc → m ∉ s.qc.kept → m ∈ s'.qc.marked) ∧
+      s'.qc.anc = s.qc.anc := by
   obtain ⟨u1, s1, hm, h1⟩ := run_bind_ok.mp h
   obtain ⟨hp1, sem1, hc1, hmk1, ha1, hn1⟩ := markAll_sem2 (wo := wo) (Q := Q) hm hp htgt
   split at h1
@@ -91,7 +92,7 @@ theorem finish_sem2 {Q : FState → Nat → Prop} {es : List Nat} {dest : Option
     subst e2
     obtain ⟨hp2, sem2, hc2, hqc2⟩ := expqSet_sem2 (wo := wo) (Q := Q) hset hp1 (by rw [hn1]; exact hd)
     refine ⟨e1, hp2, (sem1.trans' sem2).mono ?_ ?_ ?_, hc2.trans hc1,
-      fun m hm' ha => sem2.mkeep m (hmk1 m hm' ha), by rw [hqc2]; exact ha1⟩
+      fun m hm' ha hk => sem2.mkeep m (hmk1 m hm' ha hk), by rw [hqc2]; exact ha1⟩
     · rintro q _ (h' | h') <;> exact h'
     · rintro c (h' | h')
       · exact h'.elim
@@ -160,7 +161,9 @@ theorem exprSem2_and {args : List BExp} (ih : ArgsSem2 scope ρ σ0 wo args) :
       obtain ⟨_, semg, tgg⟩ := mcx_sem2 (scope := scope) (σ0 := σ0) (wo := wo) (Q := CtlQ scope ρ s') hmcx hpriv3.1
         (fun _ c hc => ctl_of_res hp2 (hb c (mem_sortDedup.mp hc)).1 (by rw [hcd])
           (fun n q hk hq' => semf.qkeep n q hk (by rw [am.qmap]; exact semd.qkeep n q hk hq'))
-          (fun ha => hmkf c hc (by rw [am.anc]; exact semd.akeep c ha)))
+          (fun ha => hmkf c hc (by rw [am.anc]; exact semd.akeep c ha) (by
+            rw [am.kept, semd.kkeep, sem1.kkeep]
+            exact hp.notKept ((hb c (mem_sortDedup.mp hc)).1.sym_or_anc hp2 ha))))
       have tail := (semd.trans' semg).trans' semf
       have tot := (sem1.monoQ (CtlQ.of_sem tail)).trans' tail
       have tgd' : Tgt s' a := tgg.of_sem semf
@@ -231,363 +234,261 @@ theorem exprSem2_and {args : List BExp} (ih : ArgsSem2 scope ρ σ0 wo args) :
 
 /-! ### `Or` -/
 
-theorem xAll_sem2 {Q : FState → Nat → Prop} : ∀ (es : List Nat) {u : Unit} {s s' : CState},
-    (xAll es).run s = .ok (u, s') → (∀ c ∈ es, ¬ Avail s c) →
-    Sem2 scope σ0 wo Q (· ∈ es) NoK NoQ s s' ∧ s'.qc.qmap = s.qc.qmap
-  | [], u, s, s', h, _ => by
-    unfold xAll at h
+/-- what `mark_ancilla w` changes -/
+theorem markAncilla_run3 {w : Nat} {u : Unit} {s s' : CState} (h : (markAncilla w).run s = .ok (u, s')) :
+    s'.expq = s.expq ∧ s'.qc.gates = s.qc.gates ∧ s'.qc.gatesComputed = s.qc.gatesComputed ∧
+      s'.qc.numQubits = s.qc.numQubits ∧ s'.qc.free = s.qc.free ∧ s'.qc.anc = s.qc.anc ∧
+      s'.qc.qmap = s.qc.qmap ∧ s'.qc.kept = s.qc.kept ∧
+      (∀ m ∈ s'.qc.marked, m ∈ s.qc.marked ∨ m = w) ∧
+      (∀ m ∈ s.qc.marked, m ∈ s'.qc.marked) ∧ (w ∈ s.qc.anc → w ∉ s.qc.kept → w ∈ s'.qc.marked) := by
+  have h' : (markAll [w]).run s = .ok (u, s') := by
+    unfold markAll markAll
+    show (markAncilla w >>= fun _ => pure ()).run s = _
+    rw [run_bind_ok]
+    exact ⟨u, s', h, rfl⟩
+  obtain ⟨b0, b1, b2, b3, b4, b5, b6, bk, b7, b8, b9⟩ := markAll_run2 [w] h'
+  refine ⟨b0, b1, b2, b3, b4, b5, b6, bk, fun m hm => ?_, b8, fun ha hk => b9 w (by simp) ha hk⟩
+  rcases b7 m hm with h1 | ⟨h1, _⟩
+  · exact Or.inl h1
+  · exact Or.inr (by simpa using h1)
+
+/-- a qubit marked *before* the gates that target it are emitted (the ancillas of the or-chain): the relation
+of the gates, extended backwards over the `mark_ancilla` -/
+theorem Sem2.after_mark {Q : FState → Nat → Prop} {W : Nat → Prop} {K : BExp → Prop} {Mk : Nat → Prop}
+    {w : Nat} {u : Unit} {s1 s2 s3 : CState} (hmk : (markAncilla w).run s1 = .ok (u, s2))
+    (sem : Sem2 scope σ0 wo Q W K Mk s2 s3) (ht : wo = false → Tgt s3 w) :
+    Sem2 scope σ0 wo Q W K (fun m => Mk m ∨ m = w) s1 s3 := by
+  obtain ⟨b0, b1, b2, b3, b4, b5, b6, bk, b7, b8, _⟩ := markAncilla_run3 hmk
+  have hav : ∀ q, Avail s2 q ↔ Avail s1 q := by intro q; unfold Avail; rw [b4, b3]
+  have hcur : cur σ0 s2 = cur σ0 s1 := cur_congr b1
+  obtain ⟨l, g, c, t, q⟩ := sem.seg
+  refine ⟨by rw [← b3]; exact sem.nq, fun x hx => (hav x).mp (sem.avail x hx), ?_, ?_, ?_,
+    fun m hm => sem.mkeep m (b8 m hm), fun a ha => sem.akeep a (by rw [b5]; exact ha),
+    fun n x hk hx => sem.qkeep n x hk (by rw [b6]; exact hx), ?_, sem.kkeep.trans bk,
+    ⟨l, by rw [g, b1], by rw [c, b2], t, fun hwo => by rw [← hcur]; exact q hwo⟩⟩
+  · intro x hw hx
+    rw [sem.frame x hw (hx.imp (fun h' h'' => h' ((hav x).mp h'')) id), hcur]
+  · intro p hp'
+    rcases sem.keys p hp' with ⟨p0, hp0, e0⟩ | hk
+    · exact Or.inl ⟨p0, by rw [← b0]; exact hp0, e0⟩
+    · exact Or.inr hk
+  · intro m hm
+    rcases sem.marks m hm with h' | h'
+    · rcases b7 m h' with h'' | h''
+      · exact Or.inl h''
+      · exact Or.inr ⟨Or.inr h'', fun hwo => h'' ▸ ht hwo⟩
+    · exact Or.inr ⟨Or.inl h'.1, h'.2⟩
+  · intro n x hx
+    rcases sem.qnew n x hx with h' | h'
+    · exact Or.inl (by rw [← b6]; exact h')
+    · exact Or.inr (by rw [← b3]; exact h')
+
+/-- `cx acc d; cx i d; mcx [acc, i] d` (`d ^= acc | i`), `d` a qubit the caller owns -/
+theorem orGate_sem2 {Q : FState → Nat → Prop} {acc i d : Nat} {u : Unit} {s s' : CState}
+    (h : StateT.run (do cx acc d; cx i d; mcx [acc, i] d : M Unit) s = .ok (u, s'))
+    (hp : Pre2 scope ρ σ0 s) (hpd : Priv scope s d) (hacc : acc ≠ d) (hi : i ≠ d)
+    (hna : ¬ Avail s acc) (hni : ¬ Avail s i)
+    (hq : wo = false → ∀ f : FState, f acc = cur σ0 s acc → f i = cur σ0 s i → Q f acc ∧ Q f i) :
+    Pre2 scope ρ σ0 s' ∧ Sem2 scope σ0 wo Q (· = d) NoK NoQ s s' ∧ Tgt s' d ∧
+      cur σ0 s' d = Bool.xor (cur σ0 s d) (cur σ0 s acc || cur σ0 s i) ∧
+      (∀ q, q ≠ d → cur σ0 s' q = cur σ0 s q) ∧
+      s'.qc.anc = s.qc.anc ∧ s'.qc.qmap = s.qc.qmap ∧ s'.qc.numQubits = s.qc.numQubits ∧
+      s'.qc.free = s.qc.free ∧ s'.qc.marked = s.qc.marked ∧ s'.qc.kept = s.qc.kept ∧
+      (∀ q, Tgt s q → Tgt s' q) := by
+  obtain ⟨u1, s1, hc1, k1⟩ := run_bind_ok.mp h
+  obtain ⟨u2, s2, hc3, hm⟩ := run_bind_ok.mp k1
+  have a1 := cx_run hc1
+  have a2 := cx_run hc3
+  have a3 : Appended (.MCX [acc, i].length) ([acc, i] ++ [d]) s2 s' := mcx_run hm
+  have hav1 : ∀ q, Avail s1 q ↔ Avail s q := by intro q; unfold Avail; rw [a1.free, a1.nq]
+  have hav2 : ∀ q, Avail s2 q ↔ Avail s q := by
+    intro q; unfold Avail; rw [a2.free, a2.nq, a1.free, a1.nq]
+  have hpd1 : Priv scope s1 d := ⟨fun h' => hpd.1 ((hav1 d).mp h'), by rw [a1.qmap]; exact hpd.2⟩
+  have hpd2 : Priv scope s2 d :=
+    ⟨fun h' => hpd.1 ((hav2 d).mp h'), by rw [a2.qmap, a1.qmap]; exact hpd.2⟩
+  have hp1 := cx_pre2 hc1 hp hpd hna
+  have hp2 := cx_pre2 hc3 hp1 hpd1 (fun h' => hni ((hav1 i).mp h'))
+  have hmem : ∀ c ∈ [acc, i], c = acc ∨ c = i := fun c hc => by simpa using hc
+  have hp3 := mcx_pre2 hm hp2 hpd2 (fun c hc h' => by
+    rcases hmem c hc with e | e
+    · exact hna (e ▸ (hav2 c).mp h')
+    · exact hni (e ▸ (hav2 c).mp h'))
+  have e1 : ∀ q, q ≠ d → cur σ0 s1 q = cur σ0 s q := fun q hq => a1.cur_ne rfl σ0 q hq
+  have e2 : ∀ q, q ≠ d → cur σ0 s2 q = cur σ0 s q := fun q hq => by
+    rw [a2.cur_ne rfl σ0 q hq, e1 q hq]
+  have sg1 := cx_sem2 (scope := scope) (σ0 := σ0) (wo := wo) (Q := Q) hc1 hpd.1
+    (fun hwo => (hq hwo _ rfl rfl).1)
+  have sg2 := cx_sem2 (scope := scope) (σ0 := σ0) (wo := wo) (Q := Q) hc3 hpd1.1
+    (fun hwo => (hq hwo _ (e1 acc hacc) (e1 i hi)).2)
+  have sg3 := mcx_sem2 (scope := scope) (σ0 := σ0) (wo := wo) (Q := Q) hm hpd2.1
+    (fun hwo c hc => by
+      rcases hmem c hc with e | e
+      · rw [e]; exact (hq hwo _ (e2 acc hacc) (e2 i hi)).1
+      · rw [e]; exact (hq hwo _ (e2 acc hacc) (e2 i hi)).2)
+  refine ⟨hp3, ((sg1.2.1.trans' sg2.2.1).trans' sg3.2.1).mono ?_ ?_ ?_, sg3.2.2, ?_, ?_,
+    a3.anc.trans (a2.anc.trans a1.anc), a3.qmap.trans (a2.qmap.trans a1.qmap),
+    a3.nq.trans (a2.nq.trans a1.nq), a3.free.trans (a2.free.trans a1.free),
+    a3.marked.trans (a2.marked.trans a1.marked), a3.kept.trans (a2.kept.trans a1.kept),
+    fun q hq => ((hq.appended a1).appended a2).appended a3⟩
+  · rintro q _ ((h' | h') | h') <;> exact h'
+  · rintro c ((h' | h') | h') <;> exact h'
+  · rintro m ((h' | h') | h') <;> exact h'
+  · rw [a3.cur_eq rfl σ0, a2.cur_eq rfl σ0, a1.cur_eq rfl σ0]
+    simp only [List.all_cons, List.all_nil]
+    rw [a2.cur_ne rfl σ0 acc hacc, a2.cur_ne rfl σ0 i hi, a1.cur_ne rfl σ0 acc hacc, a1.cur_ne rfl σ0 i hi]
+    cases cur σ0 s d <;> cases cur σ0 s acc <;> cases cur σ0 s i <;> rfl
+  · intro q hq
+    rw [a3.cur_ne rfl σ0 q hq, e2 q hq]
+
+/-- the or-chain never removes a mark -/
+theorem orChain_mkeep {dest : Nat} : ∀ (rest : List Nat) (acc : Nat) {u : Unit} {s s' : CState},
+    (orChain dest acc rest).run s = .ok (u, s') → ∀ m ∈ s.qc.marked, m ∈ s'.qc.marked
+  | [], acc, u, s, s', h, m, hm => by
+    unfold orChain at h
     obtain ⟨_, rfl⟩ := run_pure_ok.mp h
-    exact ⟨Sem2.refl _, rfl⟩
-  | i :: is, u, s, s', h, hes => by
-    unfold xAll at h
-    obtain ⟨u1, s1, h1, h2⟩ := run_bind_ok.mp h
-    obtain ⟨a1, sem1, _⟩ := xGate_sem2 (scope := scope) (σ0 := σ0) (wo := wo) (Q := Q) h1 (hes i List.mem_cons_self)
-    obtain ⟨sem2, hq2⟩ := xAll_sem2 (Q := Q) is h2
-      (fun c hc h' => hes c (List.mem_cons_of_mem _ hc) (sem1.avail c h'))
-    refine ⟨(sem1.trans' sem2).mono ?_ (fun _ h' => h'.elim id id) (fun _ h' => h'.elim id id), hq2.trans a1.qmap⟩
-    rintro q _ (h' | h')
-    · rw [h']; exact List.mem_cons_self
-    · exact List.mem_cons_of_mem _ h'
+    exact hm
+  | [i], acc, u, s, s', h, m, hm => by
+    unfold orChain at h
+    obtain ⟨u1, s1, hc1, k1⟩ := run_bind_ok.mp h
+    obtain ⟨u2, s2, hc3, k2⟩ := run_bind_ok.mp k1
+    rw [(mcx_run k2).marked, (cx_run hc3).marked, (cx_run hc1).marked]; exact hm
+  | i :: j :: rest, acc, u, s, s', h, m, hm => by
+    unfold orChain at h
+    obtain ⟨d, s1, hfa, k1⟩ := run_bind_ok.mp h
+    obtain ⟨u2, s2, hmk, k2⟩ := run_bind_ok.mp k1
+    obtain ⟨u3, s3, hc1, k3⟩ := run_bind_ok.mp k2
+    obtain ⟨u4, s4, hc2, k4⟩ := run_bind_ok.mp k3
+    obtain ⟨u5, s5, hc3, k5⟩ := run_bind_ok.mp k4
+    have h1 := (getFreeAncilla_run2 hfa).2.2.2.1
+    have h2 := (markAncilla_run3 hmk).2.2.2.2.2.2.2.2.2.1
+    exact orChain_mkeep (j :: rest) d k5 m (by
+      rw [(mcx_run hc3).marked, (cx_run hc2).marked, (cx_run hc1).marked]
+      exact h2 m (by rw [h1]; exact hm))
 
-/-- after the gates of `compile_or` (state `t`): the common tail, and the assembly of the node's relation -/
-theorem orFin {es : List Nat} {dest : Option Nat} {e : BExp} {d a : Nat} {s t s' : CState}
-    (hpt : Pre2 scope ρ σ0 t)
-    (hanc : t.qc.anc = s.qc.anc) (hqm : t.qc.qmap = s.qc.qmap) (hdlt : d < t.qc.numQubits)
-    (hv : cur σ0 t d = Bool.xor (cur σ0 s d) (es.any (cur σ0 s)))
-    (hrun : StateT.run (do
-          markAll es
-          if dest.isNone = true then do
-              expqSet e d
-              pure d
-            else pure d : M Nat) t = .ok (a, s'))
-    (htgt : wo = false → ∀ m ∈ es, m ∈ t.qc.anc → Tgt t m) (htd : wo = false → es ≠ [] → Tgt t d)
-    (hsem : (∀ (f : FState) (c : Nat), c ∈ es →
-        (c ∈ s.qc.anc ∨ ∃ n, Known scope n ∧ dictGet? s.qc.qmap n = some c ∧ f c = kval ρ n) →
-          CtlQ scope ρ s' f c) →
-       Sem2 scope σ0 wo (CtlQ scope ρ s') (· = d) NoK NoQ s t) :
-    a = d ∧ Pre2 scope ρ σ0 s' ∧
-      Sem2 scope σ0 wo (CtlQ scope ρ s') (· = d) (· = e) (fun m => m ∈ es ∧ m ∈ s.qc.anc) s s' ∧
-      cur σ0 s' d = Bool.xor (cur σ0 s d) (es.any (cur σ0 s)) ∧ (wo = false → es ≠ [] → Tgt s' d) := by
-  obtain ⟨ead, hp', semf, hcf, hmkf, _⟩ := finish_sem2 (wo := wo) (Q := CtlQ scope ρ s') hrun hpt hdlt htgt
-  have hQ : ∀ (f : FState) (c : Nat), c ∈ es →
-      (c ∈ s.qc.anc ∨ ∃ n, Known scope n ∧ dictGet? s.qc.qmap n = some c ∧ f c = kval ρ n) →
-        CtlQ scope ρ s' f c := by
-    intro f c hc h'
-    rcases h' with h' | ⟨n, hk, hq, hv'⟩
-    · exact Or.inl (hmkf c hc (by rw [hanc]; exact h'))
-    · exact Or.inr ⟨n, hk, semf.qkeep n c hk (by rw [hqm]; exact hq), hv'⟩
-  have semg := hsem hQ
-  refine ⟨ead, hp', (semg.trans' semf).mono ?_ ?_ ?_, by rw [hcf, hv], fun hwo hne => (htd hwo hne).of_sem semf⟩
-  · rintro q _ (h' | h')
-    · exact h'
-    · exact h'.elim
-  · rintro c (h' | h')
-    · exact h'.elim
-    · exact h'
-  · rintro m (h' | h')
-    · exact h'.elim
-    · exact ⟨h'.1, hanc ▸ h'.2⟩
+/-- **the or-chain** (`compile_or` with more than two distinct argument qubits) from any state satisfying the
+invariant: every intermediate or goes to an ancilla taken from the scratch space (zero) and marked; `dest ^=
+acc | rest…`; no argument qubit is written -/
+theorem orChain_sem2 {Q : FState → Nat → Prop} {dest : Nat} :
+    ∀ (rest : List Nat) (acc : Nat) {u : Unit} {s s' : CState},
+    (orChain dest acc rest).run s = .ok (u, s') → rest ≠ [] → Pre2 scope ρ σ0 s → Priv scope s dest →
+    acc ≠ dest → ¬ Avail s acc → (∀ i ∈ rest, ¬ Avail s i ∧ i ≠ dest) →
+    (wo = false → ∀ (f : FState) (c : Nat), c ∈ s'.qc.marked → Q f c) →
+    (wo = false → acc ∈ s.qc.marked ∨ ∀ f : FState, f acc = cur σ0 s acc → Q f acc) →
+    (wo = false → ∀ c ∈ rest, ∀ f : FState, f c = cur σ0 s c → Q f c) →
+    Pre2 scope ρ σ0 s' ∧
+    Sem2 scope σ0 wo Q (· = dest) NoK (fun m => Avail s m ∧ ¬ Avail s' m ∧ m ≠ dest) s s' ∧
+    cur σ0 s' dest = Bool.xor (cur σ0 s dest) (cur σ0 s acc || rest.any (cur σ0 s)) ∧ Tgt s' dest ∧
+    (∀ q, Tgt s q → Tgt s' q)
+  | [], acc, u, s, s', _, hne, _, _, _, _, _, _, _, _ => absurd rfl hne
+  | [i], acc, u, s, s', h, _, hp, hpd, hacc, hna, hr, hQm, hQa, hQr => by
+    have hmk := orChain_mkeep [i] acc h
+    unfold orChain at h
+    obtain ⟨hni, hi⟩ := hr i List.mem_cons_self
+    obtain ⟨hp', sem, tg, hv, _, _, _, _, _, _, _, htk⟩ := orGate_sem2 (wo := wo) (Q := Q) h hp hpd hacc hi hna hni
+      (fun hwo f hfa hfi => ⟨(hQa hwo).elim (fun hm => hQm hwo f acc (hmk acc hm)) (fun h' => h' f hfa),
+        hQr hwo i List.mem_cons_self f hfi⟩)
+    refine ⟨hp', sem.mono (fun _ _ h' => h') (fun _ h' => h') (fun _ h' => h'.elim), ?_, tg, htk⟩
+    rw [hv]; simp
+  | i :: j :: rest, acc, u, s, s', h, _, hp, hpd, hacc, hna, hr, hQm, hQa, hQr => by
+    have hmkAll := orChain_mkeep (i :: j :: rest) acc h
+    unfold orChain at h
+    obtain ⟨d, s1, hfa, k1⟩ := run_bind_ok.mp h
+    obtain ⟨hp1, semf, hcf, hava, hnava, hanca⟩ := getFreeAncilla_sem2 (wo := wo) (Q := Q) hfa hp
+    obtain ⟨u2, s2, hmk, k2⟩ := run_bind_ok.mp k1
+    obtain ⟨hp2, _, hcm, _, _⟩ := markAncilla_sem2 (wo := true) (Q := Q) hmk hp1 (fun hwo => by cases hwo)
+    obtain ⟨_, _, _, mn, mf, manc, mqm, mk, _, mkeep2, mmark⟩ := markAncilla_run3 hmk
+    have k2' : StateT.run (do
+        (do cx acc d; cx i d; mcx [acc, i] d : M Unit)
+        orChain dest d (j :: rest) : M Unit) s2 = .ok (u, s') := by
+      simpa only [bind_assoc] using k2
+    obtain ⟨u3, s3, hgate, k3⟩ := run_bind_ok.mp k2'
+    have hmk3 := orChain_mkeep (j :: rest) d k3
+    obtain ⟨hni, hi⟩ := hr i List.mem_cons_self
+    have hav2 : ∀ q, Avail s2 q ↔ Avail s1 q := by intro q; unfold Avail; rw [mf, mn]
+    have hnav2 : ∀ q, ¬ Avail s q → ¬ Avail s2 q := fun q hq h' => hq (semf.avail q ((hav2 q).mp h'))
+    have hdd : d ≠ dest := fun e => hpd.1 (e ▸ hava)
+    have haccd : acc ≠ d := fun e => hna (e ▸ hava)
+    have hid : i ≠ d := fun e => hni (e ▸ hava)
+    have hcur2 : cur σ0 s2 = cur σ0 s := by rw [hcm, hcf]
+    have hpd2 : Priv scope s2 d :=
+      ⟨fun h' => hnava ((hav2 d).mp h'), fun n hk hq' => (hp2.tbl n d hk hq').2.1 (by rw [manc]; exact hanca)⟩
+    have hd2m : d ∈ s2.qc.marked := mmark hanca (by rw [semf.kkeep]; exact hp.notKept hava)
+    obtain ⟨hp3, semg, tg3, hv3, hfr3, anc3, qm3, nq3, fr3, mk3, kp3, htk3⟩ :=
+      orGate_sem2 (wo := wo) (Q := Q) hgate hp2 hpd2 haccd hid (hnav2 acc hna) (hnav2 i hni)
+        (fun hwo f hfa hfi => ⟨(hQa hwo).elim (fun hm => hQm hwo f acc (hmkAll acc hm))
+            (fun h' => h' f (by rw [hfa, hcur2])),
+          hQr hwo i List.mem_cons_self f (by rw [hfi, hcur2])⟩)
+    have semmg := Sem2.after_mark hmk semg (fun _ => tg3)
+    have sem03 := semf.trans' semmg
+    have hav3 : ∀ q, Avail s3 q → Avail s q := sem03.avail
+    have hfr3' : ∀ q, q ≠ d → cur σ0 s3 q = cur σ0 s q := by
+      intro q hq; rw [hfr3 q hq, hcur2]
+    obtain ⟨hp', semr, hvr, tgr, htkr⟩ := orChain_sem2 (Q := Q) (j :: rest) d k3 (by simp) hp3 (hpd.next sem03)
+      hdd (fun h' => hnava ((hav2 d).mp (semg.avail d h')))
+      (fun x hx => ⟨fun h' => (hr x (List.mem_cons_of_mem _ hx)).1 (hav3 x h'), (hr x (List.mem_cons_of_mem _ hx)).2⟩)
+      hQm (fun _ => Or.inl (by rw [mk3]; exact hd2m))
+      (fun hwo c hc f hf => hQr hwo c (List.mem_cons_of_mem _ hc) f (by
+        rw [hf, hfr3' c (fun e => (hr c (List.mem_cons_of_mem _ hc)).1 (e ▸ hava))]))
+    have hnav' : ¬ Avail s' d := fun h' => hnava ((hav2 d).mp (semg.avail d (semr.avail d h')))
+    have hany : (j :: rest).any (cur σ0 s3) = (j :: rest).any (cur σ0 s) := by
+      apply any_congr_mem
+      intro x hx
+      exact hfr3' x (fun e => (hr x (List.mem_cons_of_mem _ hx)).1 (e ▸ hava))
+    refine ⟨hp', (sem03.trans' semr).mono ?_ ?_ ?_, ?_, tgr,
+      fun q hq => htkr q (htk3 q ?_)⟩
+    · rintro q hq ((h' | h') | h')
+      · exact h'.elim
+      · rcases hq with hq | hq
+        · exact absurd (h' ▸ hava) hq
+        · exact absurd (h' ▸ hq) hnav'
+      · exact h'
+    · rintro c ((h' | h') | h') <;> exact h'.elim
+    · rintro m ((h' | (h' | h')) | h')
+      · exact h'.elim
+      · exact h'.elim
+      · rw [h']; exact ⟨hava, hnav', hdd⟩
+      · exact ⟨hav3 m h'.1, h'.2⟩
+    · rw [hvr, hfr3' dest (Ne.symm hdd), hv3, hcur2, hp.zero d hava, hany]
+      simp only [List.any_cons, Bool.or_assoc, Bool.false_xor]
+    · obtain ⟨g, hg, ht⟩ := hq
+      obtain ⟨_, _, hgc, _⟩ := getFreeAncilla_run2 hfa
+      exact ⟨g, by rw [(markAncilla_run3 hmk).2.2.1, hgc]; exact hg, ht⟩
 
-theorem orGates_sem2 {es : List Nat} {dest : Option Nat} {e : BExp} {d a : Nat} {s s' : CState}
-    (h : StateT.run (
-        if es.length ≤ 2 then do
-          cxAll d es
-          if (es.length == 2) = true then do
-              mcx es d
-              markAll es
-              if dest.isNone = true then do
-                  expqSet e d
-                  pure d
-                else pure d
-            else do
-              markAll es
-              if dest.isNone = true then do
-                  expqSet e d
-                  pure d
-                else pure d
-        else do
-          xAll es
-          mcx es d
-          xAll es
-          xGate d
-          markAll es
-          if dest.isNone = true then do
-              expqSet e d
-              pure d
-            else pure d : M Nat) s = .ok (a, s'))
-    (hp : Pre2 scope ρ σ0 s) (hd : d ∉ es) (hpd : Priv scope s d) (hes : ∀ c ∈ es, ¬ Avail s c)
-    (hctl : wo = false → ∀ c ∈ es, c ∈ s.qc.anc ∨ ((es.Nodup → es.length ≤ 2) ∧
-        ∃ n, Known scope n ∧ dictGet? s.qc.qmap n = some c ∧ cur σ0 s c = kval ρ n))
-    (htgt : wo = false → ∀ m ∈ es, m ∈ s.qc.anc → Tgt s m) :
-    a = d ∧ Pre2 scope ρ σ0 s' ∧
-      Sem2 scope σ0 wo (CtlQ scope ρ s') (· = d) (· = e) (fun m => m ∈ es ∧ m ∈ s.qc.anc) s s' ∧
-      cur σ0 s' d = Bool.xor (cur σ0 s d) (es.any (cur σ0 s)) ∧ (wo = false → es ≠ [] → Tgt s' d) := by
-  -- a gate applied while the argument qubits hold the values they have in `s`
-  have hctl' : ∀ (f : FState), (∀ c ∈ es, f c = cur σ0 s c) → wo = false → ∀ c ∈ es,
-      (c ∈ s.qc.anc ∨ ∃ n, Known scope n ∧ dictGet? s.qc.qmap n = some c ∧ f c = kval ρ n) := by
-    intro f hf hwo c hc
-    rcases hctl hwo c hc with h' | ⟨_, n, hk, hq, hv⟩
-    · exact Or.inl h'
-    · exact Or.inr ⟨n, hk, hq, by rw [hf c hc]; exact hv⟩
-  have hdlt := notAvail_lt hpd.1
-  rcases run_ite_ok.mp h with ⟨hle, h⟩ | ⟨hnle, h⟩
-  · obtain ⟨u1, s1, hcx, h1⟩ := run_bind_ok.mp h
-    match es, hd, hes, hctl', htgt, hle, hcx, h1 with
-    | [], _, _, _, _, _, hcx, h1 =>
-      unfold cxAll at hcx
-      obtain ⟨_, rfl⟩ := run_pure_ok.mp hcx
-      rcases run_ite_ok.mp h1 with ⟨hc, _⟩ | ⟨_, h1⟩
-      · simp at hc
-      · exact orFin hp rfl rfl hdlt (by simp) h1 (fun _ _ hm => absurd hm List.not_mem_nil)
-          (fun _ hne => absurd rfl hne) (fun _ => Sem2.refl _)
-    | [q1], hd, hes, hctl', htgt, _, hcx, h1 =>
-      unfold cxAll at hcx
-      obtain ⟨u2, s2, hc1, hc2⟩ := run_bind_ok.mp hcx
-      unfold cxAll at hc2
-      obtain ⟨_, rfl⟩ := run_pure_ok.mp hc2
-      have a1 := cx_run hc1
-      have hp1 := cx_pre2 hc1 hp hpd (hes q1 (by simp))
-      rcases run_ite_ok.mp h1 with ⟨hc, _⟩ | ⟨_, h1⟩
-      · simp at hc
-      · refine orFin hp1 a1.anc a1.qmap (by rw [a1.nq]; exact hdlt) (by rw [a1.cur_eq rfl σ0]; simp) h1
-          (fun hwo m hm ha => (htgt hwo m hm (by rw [← a1.anc]; exact ha)).appended a1)
-          (fun _ _ => (cx_sem2 (scope := scope) (σ0 := σ0) (wo := wo) (Q := fun _ _ => True) hc1 hpd.1
-            (fun _ => trivial)).2.2)
-          (fun hQ => ?_)
-        exact (cx_sem2 (scope := scope) (σ0 := σ0) (wo := wo) hc1 hpd.1
-          (fun hwo => hQ _ q1 (by simp) (hctl' _ (fun _ _ => rfl) hwo q1 (by simp)))).2.1
-    | [q1, q2], hd, hes, hctl', htgt, _, hcx, h1 =>
-      unfold cxAll at hcx
-      obtain ⟨u2, s2, hc1, hc2⟩ := run_bind_ok.mp hcx
-      unfold cxAll at hc2
-      obtain ⟨u3, s3, hc3, hc4⟩ := run_bind_ok.mp hc2
-      unfold cxAll at hc4
-      obtain ⟨_, rfl⟩ := run_pure_ok.mp hc4
-      have a1 := cx_run hc1
-      have a2 := cx_run hc3
-      have hne : ∀ c ∈ [q1, q2], c ≠ d := fun c hc => by rintro rfl; exact hd hc
-      have hq1 : q1 ≠ d := hne q1 (by simp)
-      have hq2 : q2 ≠ d := hne q2 (by simp)
-      have hav2 : ∀ q, Avail s2 q ↔ Avail s q := by intro q; unfold Avail; rw [a1.free, a1.nq]
-      have hpd2 : Priv scope s2 d := ⟨fun h' => hpd.1 ((hav2 d).mp h'), by rw [a1.qmap]; exact hpd.2⟩
-      have hp1 := cx_pre2 hc1 hp hpd (hes q1 (by simp))
-      have hp2 := cx_pre2 hc3 hp1 hpd2 (fun h' => hes q2 (by simp) ((hav2 q2).mp h'))
-      have e1 : ∀ q, q ≠ d → cur σ0 s2 q = cur σ0 s q := fun q hq => a1.cur_ne rfl σ0 q hq
-      rcases run_ite_ok.mp h1 with ⟨_, h1⟩ | ⟨hc, _⟩
-      · obtain ⟨u4, s4, hm, h2⟩ := run_bind_ok.mp h1
-        have a3 := mcx_run hm
-        have hav3 : ∀ q, Avail s1 q ↔ Avail s q := by
-          intro q; unfold Avail; rw [a2.free, a2.nq, a1.free, a1.nq]
-        have hpd3 : Priv scope s1 d :=
-          ⟨fun h' => hpd.1 ((hav3 d).mp h'), by rw [a2.qmap, a1.qmap]; exact hpd.2⟩
-        have hp3 := mcx_pre2 hm hp2 hpd3 (fun c hc h' => hes c hc ((hav3 c).mp h'))
-        have e2 : ∀ q, q ≠ d → cur σ0 s1 q = cur σ0 s q := fun q hq => by
-          rw [a2.cur_ne rfl σ0 q hq, e1 q hq]
-        refine orFin hp3 (a3.anc.trans (a2.anc.trans a1.anc)) (a3.qmap.trans (a2.qmap.trans a1.qmap))
-          (by rw [a3.nq, a2.nq, a1.nq]; exact hdlt) ?_ h2
-          (fun hwo m hm ha => (((htgt hwo m hm (by
-            rw [← a1.anc, ← a2.anc, ← a3.anc]; exact ha)).appended a1).appended a2).appended a3)
-          (fun _ _ => (mcx_sem2 (scope := scope) (σ0 := σ0) (wo := wo) (Q := fun _ _ => True) hm hpd3.1
-            (fun _ _ _ => trivial)).2.2)
-          (fun hQ => ?_)
-        · rw [a3.cur_eq rfl σ0, a2.cur_eq rfl σ0, a1.cur_eq rfl σ0]
-          simp only [List.all_cons, List.all_nil, List.any_cons, List.any_nil]
-          rw [a2.cur_ne rfl σ0 q1 hq1, a2.cur_ne rfl σ0 q2 hq2, a1.cur_ne rfl σ0 q1 hq1, a1.cur_ne rfl σ0 q2 hq2]
-          cases cur σ0 s d <;> cases cur σ0 s q1 <;> cases cur σ0 s q2 <;> rfl
-        · have sg1 := (cx_sem2 (scope := scope) (σ0 := σ0) (wo := wo) (Q := CtlQ scope ρ s') hc1 hpd.1
-            (fun hwo => hQ _ q1 (by simp) (hctl' _ (fun _ _ => rfl) hwo q1 (by simp)))).2.1
-          have sg2 := (cx_sem2 (scope := scope) (σ0 := σ0) (wo := wo) (Q := CtlQ scope ρ s') hc3 hpd2.1
-            (fun hwo => hQ _ q2 (by simp) (hctl' _ (fun c hc => e1 c (hne c hc)) hwo q2 (by simp)))).2.1
-          have sg3 := (mcx_sem2 (scope := scope) (σ0 := σ0) (wo := wo) (Q := CtlQ scope ρ s') hm hpd3.1
-            (fun hwo c hc => hQ _ c hc (hctl' _ (fun c hc => e2 c (hne c hc)) hwo c hc))).2.1
-          refine ((sg1.trans' sg2).trans' sg3).mono ?_ ?_ ?_
-          · rintro q _ ((h' | h') | h') <;> exact h'
-          · rintro c ((h' | h') | h') <;> exact h'
-          · rintro m ((h' | h') | h') <;> exact h'
-      · simp at hc
-    | _ :: _ :: _ :: _, _, _, _, _, hle, _, _ => simp at hle
-  · obtain ⟨u1, s1, hx1, h1⟩ := run_bind_ok.mp h
-    obtain ⟨u2, s2, hm, h2⟩ := run_bind_ok.mp h1
-    obtain ⟨u3, s3, hx2, h3⟩ := run_bind_ok.mp h2
-    obtain ⟨u4, s4, hx3, h4⟩ := run_bind_ok.mp h3
-    have am := mcx_run hm
-    have hnd : es.Nodup := (List.nodup_append.mp (appendError_none am.noerr).1).1
-    obtain ⟨g1, v1⟩ := xAll_run (σ0 := σ0) es hx1 hnd
-    obtain ⟨g3, v3⟩ := xAll_run (σ0 := σ0) es hx2 hnd
-    have a4 := xGate_run hx3
-    have hlt : ∀ c ∈ es, c < s.qc.numQubits := fun c hc => notAvail_lt (hes c hc)
-    have st1 : Step (fun _ => False) s s1 := xAll_ok es hx1 hp.good hlt
-    have st2 : Step (fun _ => False) s1 s2 :=
-      mcx_ok hm st1.good (fun c hc => by rw [g1.nq]; exact hlt c hc) (by rw [g1.nq]; exact hdlt)
-    have hn2 : s2.qc.numQubits = s.qc.numQubits := am.nq.trans g1.nq
-    have st3 : Step (fun _ => False) s2 s3 := xAll_ok es hx2 st2.good (fun c hc => by rw [hn2]; exact hlt c hc)
-    have hn3 : s3.qc.numQubits = s.qc.numQubits := g3.nq.trans hn2
-    have st4 : Step (fun _ => False) s3 s4 := xGate_ok hx3 st3.good (by rw [hn3]; exact hdlt)
-    have hfr : ∀ q, q ≠ d → cur σ0 s4 q = cur σ0 s q := by
-      intro q hq
-      rw [a4.cur_ne rfl σ0 q hq, v3 q, am.cur_ne rfl σ0 q hq, v1 q]
-      by_cases hqe : q ∈ es <;> simp [hqe]
-    have hvd : cur σ0 s4 d = Bool.xor (cur σ0 s d) (es.any (cur σ0 s)) := by
-      rw [a4.cur_eq rfl σ0, v3 d, am.cur_eq rfl σ0, v1 d]
-      simp only [hd, if_false, List.all_nil, Bool.xor_true]
-      rw [all_not_eq es (cur σ0 s) (cur σ0 s1) (fun q hq => by rw [v1 q]; simp [hq])]
-      cases cur σ0 s d <;> cases es.any (cur σ0 s) <;> rfl
-    have hav1 : ∀ q, Avail s1 q ↔ Avail s q := by intro q; unfold Avail; rw [g1.free, g1.nq]
-    have hav2 : ∀ q, Avail s2 q ↔ Avail s q := by
-      intro q; unfold Avail; rw [am.free, am.nq, g1.free, g1.nq]
-    have hav3 : ∀ q, Avail s3 q ↔ Avail s q := by
-      intro q; unfold Avail; rw [g3.free, g3.nq, am.free, am.nq, g1.free, g1.nq]
-    obtain ⟨sx1, hqm1⟩ := xAll_sem2 (scope := scope) (σ0 := σ0) (wo := wo) (Q := CtlQ scope ρ s') es hx1 hes
-    obtain ⟨sx3, hqm3⟩ := xAll_sem2 (scope := scope) (σ0 := σ0) (wo := wo) (Q := CtlQ scope ρ s') es hx2
-      (fun c hc h' => hes c hc ((hav2 c).mp h'))
-    have hqm4 : s4.qc.qmap = s.qc.qmap := a4.qmap.trans (hqm3.trans (am.qmap.trans hqm1))
-    have hanc4 : s4.qc.anc = s.qc.anc := a4.anc.trans (g3.anc.trans (am.anc.trans g1.anc))
-    have hfree4 : s4.qc.free = s.qc.free := a4.free.trans (g3.free.trans (am.free.trans g1.free))
-    have hmk4 : s4.qc.marked = s.qc.marked := a4.marked.trans (g3.marked.trans (am.marked.trans g1.marked))
-    have hp4 : Pre2 scope ρ σ0 s4 := hp.of_same st4.good (a4.nq.trans hn3) hfree4 hanc4 hqm4
-      (fun m hm' => Or.inl (by rw [← hmk4]; exact hm')) (fun q hq => hfr q (by
-        rintro rfl
-        rcases hq with hq | ⟨n, hk, hq⟩
-        · exact hpd.1 hq
-        · exact hpd.2 n hk hq))
-    refine orFin hp4 hanc4 hqm4 (by rw [a4.nq, hn3]; exact hdlt) hvd h4
-      (fun hwo m hm ha => (((((htgt hwo m hm (by rw [← hanc4]; exact ha)).of_sem sx1).appended am).of_sem sx3).appended a4))
-      (fun _ _ => (xGate_sem2 (scope := scope) (σ0 := σ0) (wo := wo) (Q := fun _ _ => True) hx3
-        (fun h' => hpd.1 ((hav3 d).mp h'))).2.2)
-      (fun hQ => ?_)
-    have sgm := (mcx_sem2 (scope := scope) (σ0 := σ0) (wo := wo) (Q := CtlQ scope ρ s') hm
-      (fun h' => hpd.1 ((hav1 d).mp h')) (fun hwo c hc => by
-        rcases hctl hwo c hc with h' | ⟨h', _⟩
-        · exact hQ _ c hc (Or.inl h')
-        · exact absurd (h' hnd) hnle)).2.1
-    have sx4 := (xGate_sem2 (scope := scope) (σ0 := σ0) (wo := wo) (Q := CtlQ scope ρ s') hx3
-      (fun h' => hpd.1 ((hav3 d).mp h'))).2.1
-    refine ((((sx1.trans' sgm).trans' sx3).trans' sx4).reframe (W' := (· = d)) (fun q hq _ => hfr q hq)).mono
-      (fun _ _ h' => h') ?_ ?_
-    · rintro c (((h' | h') | h') | h') <;> exact h'
-    · rintro m (((h' | h') | h') | h') <;> exact h'
-
-theorem exprSem2_or {args : List BExp} (ih : ArgsSem2 scope ρ σ0 wo args)
-    (hor : wo = false → args.length ≤ 2 ∨ ∀ a ∈ args, isLeaf a = false) (hne : wo = false → args ≠ []) :
-    ExprSem2 scope ρ σ0 wo (.or args) := by
-  intro dest sym a s s' h hp hcache hd hsym _
-  unfold compileExpr at h
+theorem orWide_sem2 {Q : FState → Nat → Prop} {d : Nat} {erets es : List Nat} {u : Unit} {s s' : CState}
+    (h : (orWide d erets es).run s = .ok (u, s')) (hlen : 2 < es.length) (hd : d ∉ es)
+    (hp : Pre2 scope ρ σ0 s) (hpd : Priv scope s d) (hes : ∀ c ∈ es, ¬ Avail s c)
+    (hQm : wo = false → ∀ (f : FState) (c : Nat), c ∈ s'.qc.marked → Q f c)
+    (hQe : wo = false → ∀ c ∈ es, ∀ f : FState, f c = cur σ0 s c → Q f c) :
+    Pre2 scope ρ σ0 s' ∧
+    Sem2 scope σ0 wo Q (· = d) NoK (fun m => Avail s m ∧ ¬ Avail s' m ∧ m ≠ d) s s' ∧
+    cur σ0 s' d = Bool.xor (cur σ0 s d) (es.any (cur σ0 s)) ∧ Tgt s' d ∧ (∀ q, Tgt s q → Tgt s' q) := by
+  unfold orWide at h
   dsimp only at h
-  obtain ⟨r0, s1, hget, h1⟩ := run_bind_ok.mp h
-  obtain ⟨rfl, rfl⟩ := expqGet?_miss hget (fun p hp' => hcache p hp' _ (by simp [compKeys]))
-  dsimp only at h1
-  obtain ⟨erets, s2, hargs, h2⟩ := run_bind_ok.mp h1
-  obtain ⟨hp2, sem1, hvals, hb, hancs⟩ := ih hargs hp
-    (fun p hp' c hc => hcache p hp' c (by simp [compKeys, hc]))
-  have hd2 : ∀ d, dest = some d → Priv scope s2 d := fun d hd' => (hd d hd').next sem1
-  have hlen : erets.length = args.length := by
-    have := congrArg List.length hvals
-    simpa using this
-  have body : ∀ {d : Nat} {s3 : CState} {k : M Nat} (es : List Nat),
-      es = sortNat (if erets.contains d = true then erets.erase d else erets).eraseDups →
-      (destOr dest).run s2 = .ok (d, s3) →
-      StateT.run (if erets.contains d = true then do event "destAmongArgs"; k else k) s3 = .ok (a, s') →
-      (∀ {t : CState}, k.run t = .ok (a, s') → Pre2 scope ρ σ0 t → d ∉ es → Priv scope t d →
-        (∀ c ∈ es, ¬ Avail t c) →
-        (wo = false → ∀ c ∈ es, c ∈ t.qc.anc ∨ ((es.Nodup → es.length ≤ 2) ∧
-          ∃ n, Known scope n ∧ dictGet? t.qc.qmap n = some c ∧ cur σ0 t c = kval ρ n)) →
-        (wo = false → ∀ m ∈ es, m ∈ t.qc.anc → Tgt t m) →
-        a = d ∧ Pre2 scope ρ σ0 s' ∧
-          Sem2 scope σ0 wo (CtlQ scope ρ s') (· = d) (· = BExp.or args) (fun m => m ∈ es ∧ m ∈ t.qc.anc) t s' ∧
-          cur σ0 s' d = Bool.xor (cur σ0 t d) (es.any (cur σ0 t)) ∧ (wo = false → es ≠ [] → Tgt s' d)) →
-      Pre2 scope ρ σ0 s' ∧
-      Sem2 scope σ0 wo (CtlQ scope ρ s') (fun q => dest = some q) (· ∈ compKeys (BExp.or args))
-        (fun m => Avail s1 m ∧ ¬ Avail s' m ∧ (dest = none → m ≠ a)) s1 s' ∧
-      (dest = none → Res scope wo s1 s' a ∧ ¬ Avail s' a ∧ cur σ0 s' a = (BExp.or args).eval ρ ∧
-        (isLeaf (BExp.or args) = false → a ∈ s'.qc.anc)) ∧
-      (∀ d, dest = some d → a = d ∧ cur σ0 s' d = Bool.xor (cur σ0 s1 d) ((BExp.or args).eval ρ) ∧
-        (wo = false → Tgt s' d)) := by
-    intro d s3 k es hes hdest h3 hk
-    obtain ⟨hp3, semd, hcd, hdn, hpriv3, hdcase⟩ := dest_sem2 (wo := wo) (Q := CtlQ scope ρ s') hp2 hd hd2 hb hdest
-    have hcdn : ¬ (erets.contains d = true) := by simpa using hdn
-    rw [if_neg hcdn] at hes
-    have hmem : ∀ c, c ∈ es → c ∈ erets := fun c hc => mem_sortDedup.mp (hes ▸ hc)
-    have hdes : d ∉ es := fun h' => hdn (hmem d h')
-    rcases run_ite_ok.mp h3 with ⟨hc, _⟩ | ⟨_, h3⟩
-    · exact absurd hc hcdn
-    · obtain ⟨ead, hp', semo, hv, htd⟩ := hk h3 hp3 hdes hpriv3
-        (fun c hc h' => (hb c (hmem c hc)).2 (semd.avail c h'))
-        (fun hwo c hc => by
-          rcases (hb c (hmem c hc)).1 with ⟨n, hkn, hq⟩ | ⟨_, hanc, _⟩
-          · rcases hor hwo with hle | hall
-            · refine Or.inr ⟨fun hnd => ?_, n, hkn, semd.qkeep n c hkn hq, by
-                rw [hcd]; exact (hp2.tbl n c hkn hq).2.2⟩
-              exact Nat.le_trans (hnd.length_le_of_subset (fun x hx => hmem x hx)) (by rw [hlen]; exact hle)
-            · exact Or.inl (semd.akeep c (hancs hall c (hmem c hc)))
-          · exact Or.inl (semd.akeep c hanc))
-        (fun hwo m hm ha => ((hb m (hmem m hm)).1.next semd).tgt_of_anc hp3 ha hwo)
-      subst ead
-      have tgd' : wo = false → Tgt s' a := fun hwo => htd hwo (by
-        have hne' := hne hwo
-        cases hea : erets with
-        | nil => rw [hea] at hlen; exact absurd (List.length_eq_zero_iff.mp hlen.symm) hne'
-        | cons x xs =>
-          intro hnil
-          have : x ∈ es := by rw [hes]; exact mem_sortDedup.mpr (by rw [hea]; exact List.mem_cons_self)
-          rw [hnil] at this; cases this)
-      have tail := semd.trans' semo
-      have tot := (sem1.monoQ (CtlQ.of_sem tail)).trans' tail
-      have hval : cur σ0 s' a = Bool.xor (cur σ0 s2 a) (evalOr ρ args) := by
-        rw [hv, hes, any_sortDedup, hcd, any_of_map hvals]
-      have hnava' : ¬ Avail s' a := fun h' => hpriv3.1 (semo.avail a h')
-      have hmk : ∀ m, m ∈ es ∧ m ∈ s3.qc.anc → Avail s1 m ∧ ¬ Avail s' m ∧ m ≠ a := by
-        rintro m ⟨h1', h2'⟩
-        have hm := hb m (hmem m h1')
-        exact ⟨(hm.1.next semd).sym_or_anc hp3 h2', fun h' => hm.2 (tail.avail m h'),
-          fun e => hdes (e ▸ h1')⟩
-      rcases hdcase with hsome | ⟨hnone, hava, hanca, hz⟩
-      · subst hsome
-        refine ⟨hp', tot.mono ?_ ?_ ?_, fun hn => (by cases hn), fun d' hd' => ?_⟩
-        · rintro q _ (h' | (h' | h'))
-          · exact h'.elim
-          · exact h'.elim
-          · rw [h']
-        · rintro c (h' | (h' | h'))
-          · simp [compKeys, show c ∈ compKeysList args from h']
-          · exact h'.elim
-          · simp [compKeys, show c = BExp.or args from h']
-        · rintro m (h' | (h' | h'))
-          · exact ⟨h'.1, fun hm => h'.2 (tail.avail m hm), fun hn => by cases hn⟩
-          · exact h'.elim
-          · exact ⟨(hmk m h').1, (hmk m h').2.1, fun hn => by cases hn⟩
-        · cases hd'
-          refine ⟨rfl, ?_, tgd'⟩
-          rw [hval, sem1.frame a (fun h' => h') (Or.inl (hd a rfl).1)]
-          simp [BExp.eval]
-      · subst hnone
-        have hav1 : Avail s1 a := sem1.avail a hava
-        have hanc' : a ∈ s'.qc.anc := semo.akeep a hanca
-        refine ⟨hp', tot.mono ?_ ?_ ?_, fun _ => ⟨Or.inr ⟨hav1, hanc', tgd'⟩, hnava', ?_, fun _ => hanc'⟩,
-          fun d' hd' => by cases hd'⟩
-        · rintro q hq' (h' | (h' | h'))
-          · exact h'.elim
-          · exact h'.elim
-          · rcases hq' with hq' | hq'
-            · exact absurd (h' ▸ hav1) hq'
-            · exact absurd (h' ▸ hq') hnava'
-        · rintro c (h' | (h' | h'))
-          · simp [compKeys, show c ∈ compKeysList args from h']
-          · exact h'.elim
-          · simp [compKeys, show c = BExp.or args from h']
-        · rintro m (h' | (h' | h'))
-          · exact ⟨h'.1, fun hm => h'.2 (tail.avail m hm), fun _ e => h'.2 (e ▸ hava)⟩
-          · exact h'.elim
-          · exact ⟨(hmk m h').1, (hmk m h').2.1, fun _ => (hmk m h').2.2⟩
-        · rw [hval, hz]
-          simp [BExp.eval]
-  cases dest with
-  | some d0 =>
-    dsimp only at h2
-    obtain ⟨d, s3, hp0, h4⟩ := run_bind_ok.mp h2
-    exact body _ rfl hp0 h4 (fun hk hpt hdes hpd hes hctl htgt => orGates_sem2 hk hpt hdes hpd hes hctl htgt)
-  | none =>
-    dsimp only at h2
-    obtain ⟨d, s3, hf, h4⟩ := run_bind_ok.mp h2
-    exact body _ rfl hf h4 (fun hk hpt hdes hpd hes hctl htgt => orGates_sem2 hk hpt hdes hpd hes hctl htgt)
+  rcases run_ite_ok.mp h with ⟨_, h⟩ | ⟨hne, h⟩
+  · obtain ⟨_, _, hthrow, _⟩ := run_bind_ok.mp h
+    exact (run_throw_ok.mp hthrow).elim
+  · have heq : sortNat (pySetOrder erets) = es := by simpa using hne
+    have hmem : ∀ x, x ∈ pySetOrder erets ↔ x ∈ es := by
+      intro x; rw [← heq]; unfold sortNat; exact List.mem_mergeSort.symm
+    have hl : (pySetOrder erets).length = es.length := by
+      rw [← heq]; unfold sortNat; exact (List.length_mergeSort _).symm
+    cases ho : pySetOrder erets with
+    | nil => rw [ho] at hl; simp at hl; omega
+    | cons a rest =>
+      rw [ho] at h hmem hl
+      have hrest : rest ≠ [] := by
+        rintro rfl; simp at hl; omega
+      have ha : a ∈ es := (hmem a).mp List.mem_cons_self
+      obtain ⟨hp', sem, hv, tg, htk⟩ := orChain_sem2 (wo := wo) (Q := Q) rest a h hrest hp hpd
+        (by rintro rfl; exact hd ha) (hes a ha)
+        (fun i hi => by
+          have hie : i ∈ es := (hmem i).mp (List.mem_cons_of_mem _ hi)
+          exact ⟨hes i hie, by rintro rfl; exact hd hie⟩)
+        hQm (fun hwo => Or.inr (hQe hwo a ha))
+        (fun hwo c hc => hQe hwo c ((hmem c).mp (List.mem_cons_of_mem _ hc)))
+      have hany : (cur σ0 s a || rest.any (cur σ0 s)) = es.any (cur σ0 s) := by
+        have := any_of_mem_iff (cur σ0 s) hmem
+        simpa only [List.any_cons] using this
+      exact ⟨hp', sem, by rw [hv, hany], tg, htk⟩
 
 end QV.Compiler
